@@ -367,7 +367,8 @@ BLOCKS = [
      '<xsl:value-of select="%s"/>|<xsl:for-each select="//*"><xsl:value-of select="%s"/>~<xsl:value-of select="normalize-space(.)"/>~<xsl:value-of select="string-length(.)"/>;</xsl:for-each>|'
      '<xsl:value-of select="count(//*[.=\'\'])"/>/<xsl:value-of select="count(//*[contains(.,\' \')])"/>/<xsl:value-of select="count(//*[starts-with(., \' \')])"/>/'
      '<xsl:value-of select="count(//*[string-length() = %d])"/>/<xsl:value-of select="boolean(string(/*/*[1]))"/>|[<xsl:value-of select="/*"/>]<xsl:value-of select="concat(\'[\', /*/*[1], \']\')"/>'
-     '|<xsl:value-of select="count(//*[. = //*[1]])"/>|<xsl:value-of select="count(//*[normalize-space() = \'\'])"/>'
+     '|<xsl:value-of select="count(//*[. = //*[1]])"/>|<xsl:value-of select="count(//*[normalize-space() = \'\'])"/>|<xsl:value-of select="sum(//*[number(.) = number(.)])"/>'
+     '|<xsl:value-of select="count(//*[number(.) = number(.)])"/>|<xsl:value-of select="count(//*[. &gt; 0])"/>'
      % (TR % "string(/)", TR % ".", CODE_W)),
     ("keys",
      '<xsl:key name="kt" match="text()" use="string-length(.)"/><xsl:key name="ke" match="*" use="."/><xsl:key name="kn" match="node()" use="name(..)"/>'
